@@ -314,9 +314,9 @@ func (sms *sqlMetadataStore) CompleteMultipartUpload(ctx context.Context, tx *sq
 		if err != nil {
 			return nil, err
 		}
-		if opts != nil && opts.IfNoneMatchStar && nullVersionEntity != nil {
-			return nil, metadatastore.ErrPreconditionFailed
-		}
+		// A null version that is not current (it lies beneath a delete marker)
+		// does not make the key exist: If-None-Match was decided above on the
+		// current version, and this completion replaces the old null version.
 		if nullVersionEntity != nil {
 			unreferencedParts, err := sms.removePartRowsByObjectId(ctx, tx, *nullVersionEntity.Id)
 			if err != nil {
